@@ -677,8 +677,16 @@ impl TypeChecker {
                 self.type_declarations.insert(*var);
             }
 
-            S::Definition { .. } => {
-                self.definition(statement, ctx)?;
+            S::Definition { span, .. } => {
+                // There is no function to return from out here.
+                if self.definition(statement, ctx)?.is_some() {
+                    return err_type_error!(
+                        self,
+                        *span,
+                        TypeError::Exotic,
+                        "`ret` only works in functions"
+                    );
+                }
             }
 
             S::ExternalDefinition { var, ty, span, .. } => {
